@@ -213,6 +213,8 @@ class Interp:
             return
         t = pat[0]
         if t == "pident":
+            if pat[1][:1].isupper() and not pat[2] and not pat[3] and not pat[4]:
+                return
             self.env[-1][pat[1]] = v
             if pat[4]:
                 self.bind(pat[4], v)
@@ -256,6 +258,14 @@ class Interp:
         if t in ("pwild", "pident"):
             if t == "pident" and pat[4]:
                 return self.pat_match(pat[4], v)
+            if t == "pident" and pat[1][:1].isupper() and not pat[2] and not pat[3]:
+                # a bare upper-case identifier is a unit variant / constant brought in scope by `use Enum::*`, not a binding
+                if v[0] == "const":
+                    return "yes" if same_variant(pat[1], v[1]) else "no"
+                if v[0] == "phi":
+                    rs = {self.pat_match(pat, x) for x in v[1]}
+                    return rs.pop() if len(rs) == 1 else "maybe"
+                return "maybe"
             # an identifier pattern can also be a constant / unit variant in scope: treated as a binding (upper-case single idents are rare here)
             return "yes"
         if t in ("ptype",):
@@ -635,9 +645,28 @@ class Interp:
             return ("bool", True)
         return ("bin", "||", a, b)
 
+    def dead(self, c, pol):
+        """adding (c, pol) to the current path condition contradicts a fact already on it: the branch cannot be reached"""
+        have = set(flat_conds(self.ctx))
+        for a, p in flat_conds([(c, pol)]):
+            if (a, not p) in have:
+                return True
+            em = emptiness(a, p)
+            if em is not None:
+                for b, q in have:
+                    em2 = emptiness(b, q)
+                    if em2 is not None and em2[0] == em[0] and em2[1] != em[1]:
+                        return True
+        return False
+
     def x_if(self, e):
         self.env.append({})
         c = self.cond(e[1])
+        if c[0] != "bool":
+            if self.dead(c, True):
+                c = ("bool", False)
+            elif self.dead(c, False):
+                c = ("bool", True)
         try:
             if c == ("bool", True):
                 return self.block(e[2])
@@ -706,10 +735,10 @@ class Interp:
             n0 = len(self.ctx)
             for ng in negs:
                 self.ctx.append((ng, False))
-            c = ("is", render_pat(self.erase_bindings(arm[0])), s) if r != "yes" else ("bool", True)
+            c = self.arm_cond(arm[0], s)
             if arm[1] is not None:
                 c = self.conj(c, self.cond(arm[1]))
-            if c == ("bool", False):
+            if c == ("bool", False) or (c != ("bool", True) and self.dead(c, True)):
                 del self.ctx[n0:]
                 self.env.pop()
                 continue
@@ -732,6 +761,42 @@ class Interp:
             env = self.merge(env, en)
         self.env = env
         return phi([v for _, v in live]), False
+
+    def arm_cond(self, pat, s):
+        """the condition under which value s matches the pattern, as a value: constants are decided, a tuple pattern is the conjunction of its
+        components, a bool literal is the component itself (`match (mode, hits.is_empty()) { (Inner, true) => ..` == `if hits.is_empty()` for Inner)"""
+        r = self.pat_match(pat, s)
+        if r == "yes":
+            return ("bool", True)
+        if r == "no":
+            return ("bool", False)
+        t = pat[0]
+        if t == "ptype":
+            return self.arm_cond(pat[1], s)
+        if t == "pref":
+            return self.arm_cond(pat[2], s)
+        if t == "pident" and pat[4]:
+            return self.arm_cond(pat[4], s)
+        if t == "ptuple" and not any(is_node(p) and p[0] == "prest" for p in pat[1]):
+            c = ("bool", True)
+            for k, p in enumerate(pat[1]):
+                c = self.conj(c, self.arm_cond(p, proj(s, k)))
+            return c
+        if t == "por":
+            c = ("bool", False)
+            for p in pat[1]:
+                c = self.disj(c, self.arm_cond(p, s))
+            return c
+        if t == "plit":
+            lit = self.expr(pat[1])
+            if lit[0] == "bool":
+                return s if lit[1] else self.negate(s)
+            return ("bin", "==", s, lit)
+        if s[0] == "opt" and t == "pts" and last2(pat[1])[-1] == "Some":
+            return s[1]
+        if s[0] == "opt" and t == "ppath" and last2(pat[1])[-1] == "None":
+            return self.negate(s[1])
+        return ("is", render_pat(self.erase_bindings(pat)), s)
 
     def loop_over(self, src_val):
         """(loop id, element value, filter conditions) for iterating `src_val`"""
@@ -760,6 +825,11 @@ class Interp:
 
     def x_for(self, e):
         src = self.expr(e[2])
+        if src[0] == "chain":
+            for part in src[1]:
+                lid, el, conds = self.loop_over(part)
+                self.run_loop(lid, conds, lambda: (self.bind(e[1], el), self.block(e[3])))
+            return UNIT, False
         lid, el, conds = self.loop_over(src)
 
         def body():
@@ -1026,6 +1096,8 @@ class Interp:
             if name == "drain":
                 self.loops[it[1]]["adapt"].append("drain") if raw_args and render(raw_args[0]) != ".." else None
             return it
+        if recv[0] == "chain" and name in ITER_ADAPTORS:
+            return self.chain_method(recv, name, raw_args, e)
         is_iterish = recv[0] in ("iter", "range")
         if is_iterish and name in ITER_ADAPTORS:
             return self.iter_method(self.as_iter(recv), name, raw_args, e)
@@ -1038,8 +1110,8 @@ class Interp:
                 self.event("add", obj=oid, value=val, how=name)
                 return UNIT
             if name in ("extend", "append", "extend_from_slice"):
-                if args:
-                    lid, el, conds = self.loop_over(args[0])
+                for src_ in (args[0][1] if args and args[0][0] == "chain" else args[:1]):
+                    lid, el, conds = self.loop_over(src_)
                     self.enter_loop(lid)
                     self.events.append({"k": "add", "obj": oid, "value": el, "how": name, "ctx": tuple(self.ctx) + tuple(conds), "loops": tuple(self.loopstack)})
                     self.loopstack.pop()
@@ -1058,6 +1130,16 @@ class Interp:
         if name in ("map", "and_then", "filter", "map_or", "map_or_else", "unwrap_or", "unwrap_or_else", "unwrap_or_default", "ok_or", "ok_or_else", "is_some", "is_none",
                     "is_ok", "is_err", "ok", "err", "or", "or_else", "get_or_insert_with"):
             return self.option_method(recv, name, args)
+        # ---- inherent methods of a crate-local enum called on a known variant (`mode.keeps_left()`): evaluated with self = the variant
+        if recv[0] == "const" and len(last2(recv[1])) == 2:
+            ty = last2(recv[1])[0]
+            cs = [it for it in self.fns.get(name, []) if it["k"] == "method" and strip_generics(it.get("self") or "").split("::")[-1] == ty and not it.get("trait")
+                  and it["sig"]["inputs"] and is_receiver(it["sig"]["inputs"][0]) and len(it["sig"]["inputs"]) - 1 == len(args)]
+            if len(cs) == 1 and not self.opaque(cs[0]) and not any(fr.get("item") is cs[0] for fr in self.callstack) and len(self.callstack) < MAX_DEPTH:
+                self.inlined.append(cs[0]["name"])
+                r = self.run_item(cs[0], args, self_val=recv)
+                if r is not None:
+                    return r
         # ---- crate-local methods on self
         if recv == self.lookup("self") and recv is not None:
             it = self.resolve(name, len(args), method=True, recv_self=True)
@@ -1076,6 +1158,45 @@ class Interp:
                 args2.append(a)
         self.event("call", name=name, recv=recv, args=tuple(args2), item=None)
         return ("m", recv, name, tuple(args2))
+
+    def chain_method(self, ch, name, raw_args, e):
+        parts = list(ch[1])
+        if name in ("collect", "partition", "unzip"):
+            o = None
+            for part in parts:
+                r = self.iter_method(part, "collect", raw_args, e)
+                if o is None:
+                    o = r
+                else:
+                    # same container: re-target the adds of the later parts
+                    for ev in self.events:
+                        if ev["k"] == "add" and ev["obj"] == r[1]:
+                            ev["obj"] = o[1]
+                    del self.objs[r[1]]
+            return o
+        if name in ("for_each", "try_for_each"):
+            for part in parts:
+                self.iter_method(part, name, raw_args, e)
+            return UNIT
+        if name in ("all", "any"):
+            out = None
+            for part in parts:
+                q = self.iter_method(part, name, raw_args, e)
+                out = q if out is None else (self.conj(out, q) if name == "all" else self.disj(out, q))
+            return out
+        if name in ("map", "filter", "filter_map", "inspect", "chain") or name in TRANSPARENT:
+            if name == "chain":
+                args = [self.expr(a) for a in raw_args]
+                more = args[0] if args and args[0][0] == "chain" else ("chain", (self.as_iter(args[0]),)) if args else ("chain", ())
+                return ("chain", ch[1] + more[1])
+            return ("chain", tuple(self.iter_method(part, name, raw_args, e) for part in parts))
+        if name == "enumerate" or name in ITER_ORDER_ADAPTORS:
+            for part in parts:
+                self.loops[part[1]]["adapt"].append(name + "-after-chain")
+            return ch
+        args = [self.expr(a) for a in raw_args]
+        self.event("call", name=name, recv=ch, args=tuple(a for a in args if a[0] != "closure"), item=None)
+        return ("m", ch, name, tuple(a for a in args if a[0] != "closure"))
 
     def option_method(self, recv, name, args):
         pres = recv[1] if recv[0] == "opt" else ("is", "Some(_)", recv)
@@ -1132,8 +1253,11 @@ class Interp:
                 if other is not None:
                     lp.setdefault("zip", []).append(self.loops[other[1]]["src"])
                     return ("iter", lid, ("tuple", (el, other[2])), conds + other[3])
-            if name == "chain" and args:
-                return ("iter", lid, phi([el, self.as_iter(args[0])[2]]), conds)
+            if name == "chain" and args and args[0][0] != "closure":
+                # a.chain(b): two traversals, one after the other, feeding the same consumer
+                lp["adapt"].remove("chain")
+                second = args[0] if args[0][0] == "chain" else ("chain", (self.as_iter(args[0]),))
+                return ("chain", (it,) + second[1])
             if name in ("skip_while", "take_while", "flat_map") and args and args[0][0] == "closure":
                 r = with_loop(lambda: self.apply(args[0], [el]))
                 if name == "flat_map":
@@ -1362,6 +1486,8 @@ def origin_values(I, v, _seen=None):
         seen.add(x)
         yield x
         if x[0] == "m" and x[2] in LOOKUPS:
+            st.append(x[1])
+        elif x[0] == "index":
             st.append(x[1])
         elif x[0] == "obj":
             for c in contents(I, x[1]):
